@@ -57,7 +57,8 @@ fn one_case(seed: u64, i: u64) -> CaseOut {
     // scripts: get to the end quickly, then issue resuming commands there
     let mut cmds = Vec::new();
     for _ in 0..rng.below(3) {
-        cmds.push(match rng.below(4) {
+        cmds.push(match rng.below(5) {
+            4 => Cmd::Reset,
             0 => Cmd::Step,
             1 => Cmd::StepInto(1 + rng.below(5) as u32),
             2 => Cmd::BreakAdd(img.origin().wrapping_add(rng.below(img.words.len() as u64 + 1) as u16)),
@@ -98,6 +99,10 @@ fn one_case(seed: u64, i: u64) -> CaseOut {
         });
     }
     cmds.push(Cmd::Continue);
+    if rng.chance(1, 5) {
+        // back to the start and once more through the whole program
+        cmds.push(Cmd::Reset);
+    }
     cmds.push(Cmd::Continue);
     for _ in 0..1 + rng.below(6) {
         cmds.push(match rng.below(5) {
